@@ -340,3 +340,48 @@ Definition ndp_roundtrip (k : kind) (l : ndp) (payload : list Z) (junk : list Z)
   | (Err e, l') => (Err e, (l', Err e, false))
   | (Panic s, l') => (Panic s, (l', Panic s, false))
   end.
+
+(* ================================================================ views used by the theorems *)
+
+(* the public fields of a message kind (the generic record's other fields are not part of that
+   Go type); contents and payload are compared separately *)
+Definition ndp_fview (k : kind) (l : ndp) : ndp :=
+  match k with
+  | KRS | KOPT => mkNdp 0 0 0 0 0 [] [] (n_opts l) [] []
+  | KRA => mkNdp (n_hop l) (n_flags l) (n_life l) (n_reach l) (n_retrans l) [] [] (n_opts l) [] []
+  | KNS => mkNdp 0 0 0 0 0 (n_target l) [] (n_opts l) [] []
+  | KNA => mkNdp 0 (n_flags l) 0 0 0 (n_target l) [] (n_opts l) [] []
+  | KRD => mkNdp 0 0 0 0 0 (n_target l) (n_dest l) (n_opts l) [] []
+  end.
+
+(* every observable of a layer object of kind k *)
+Definition ndp_view (k : kind) (l : ndp) : ndp * list Z * list Z :=
+  (ndp_fview k l, n_contents l, n_payload l).
+
+(* in-range values (C06): what the wire format can carry *)
+Definition opt_okb (o : opt) : bool :=
+  bytes_okb (o_data o) && byte_okb (o_type o) &&
+  ((n6_len (o_data o) + 2) mod 8 =? 0) && (n6_len (o_data o) + 2 <=? 2040).
+
+Definition ndp_okb (k : kind) (l : ndp) : bool :=
+  forallb opt_okb (n_opts l) &&
+  match k with
+  | KRS | KOPT => true
+  | KRA => byte_okb (n_hop l) && byte_okb (n_flags l) && (0 <=? n_life l) && (n_life l <? 65536)
+           && (0 <=? n_reach l) && (n_reach l <? 4294967296) && (0 <=? n_retrans l) && (n_retrans l <? 4294967296)
+  | KNS => bytes_okb (n_target l) && (n6_len (n_target l) =? 16)
+  | KNA => byte_okb (n_flags l) && bytes_okb (n_target l) && (n6_len (n_target l) =? 16)
+  | KRD => bytes_okb (n_target l) && (n6_len (n_target l) =? 16) && bytes_okb (n_dest l) && (n6_len (n_dest l) =? 16)
+  end.
+
+Definition icmp6_okb (l : icmp6) : bool := (0 <=? i_tc l) && (i_tc l <? 65536).
+
+Definition ph_okb (ph : pseudo) : bool :=
+  match ph with
+  | PHnone => false
+  | PH6 s d => (n6_len s =? 16) && (n6_len d =? 16)
+  end.
+
+(* the wire form of one option *)
+Definition opt_enc (o : opt) : list Z :=
+  [u8 (o_type o); u8 ((n6_len (o_data o) + 2) / 8)] ++ o_data o.
